@@ -33,6 +33,7 @@ const (
 type hole struct {
 	kind holeKind
 	set  func(value string) // strings: value; names: name; numbers: spelling
+	str  *gen.Str           // holeStr: the literal
 }
 
 // fixedNames are identifiers that are not holes: built-in constants, join
@@ -64,7 +65,7 @@ func collectHoles(p *gen.Program) []hole {
 				identHole(&x.Parts[i])
 			}
 		case *gen.Str:
-			hs = append(hs, hole{kind: holeStr, set: func(v string) { x.Value = v; x.Raw = "" }})
+			hs = append(hs, hole{kind: holeStr, str: x, set: func(v string) { x.Value = v; x.Raw = "" }})
 		case *gen.Num:
 			k := holeNum
 			if rowCount {
@@ -171,6 +172,10 @@ type fillCase struct {
 	Skeleton json.RawMessage `json:"skeleton"`
 	// Fill[i] is the hostile content of hole i (Go-quoted: may hold any byte).
 	FillQ []string `json:"fill_q"`
+	// Spell[i] (optional, string holes): 0 is the value's default spelling;
+	// otherwise bit 0 chooses the quote character and the remaining bits the
+	// bytes that get a superfluous backslash.
+	Spell []uint64 `json:"spell,omitempty"`
 	Src   string   `json:"hostile_src"` // informational
 }
 
@@ -255,13 +260,31 @@ func checkFill(c *fillCase) (msg string, harnessErr string, info map[string]int)
 		}
 		hostVal[i] = v
 		bh[i].set(baselineFor(i, bh[i].kind))
+		if bh[i].str != nil {
+			// the benign contents are spelled plainly; the hostile ones in the
+			// value's default spelling (either quote, superfluous escapes)
+			bh[i].str.Raw = gen.QuoteString(bh[i].str.Value, '"')
+		}
 		hh[i].set(v)
+		if hh[i].str != nil && i < len(c.Spell) && c.Spell[i] != 0 {
+			q, mask := byte('"'), c.Spell[i]>>1
+			if c.Spell[i]&1 == 1 {
+				q = '\''
+			}
+			hh[i].str.Raw = gen.SpellWith(v, q, func(j int) bool { return mask>>(uint(j)%63)&1 == 1 })
+		}
 	}
 	bl, hl := gen.Layout(gen.Print(base), nil), gen.Layout(gen.Print(host), nil)
 	c.Src = hl.Src
 	// the PQL spelling must carry exactly the intended values (construction check)
 	if m := tokensMatch(hl); m != "" {
-		return "", "the hostile program does not scan to its intended tokens (C09's business): " + m, info
+		if rm := refTokensMatch(hl); rm != "" {
+			return "", "the hostile program is not spelled as intended: " + rm, info
+		}
+		// the language's lexical rules (reference tokenizer) give the intended
+		// values, pql's scanner something else: the value written in PQL cannot
+		// reach the SQL
+		return "the scanner does not read the program's literals and names as the language defines them, so the SQL cannot carry the values written: " + m, "", info
 	}
 	rb, rh := safeCompile(bl.Src, nil), safeCompile(hl.Src, nil)
 	if rb.Hung || rh.Hung || rb.Panic != "" || rh.Panic != "" {
@@ -395,7 +418,7 @@ func init() {
 }
 
 var hostileAlphabet = []string{"'", "\"", "`", "\\", "-", "/", "*", ";", "(", ")", ",", "\x00", "\t", "\n", " ", "é", "\xff", "{", "}", "a", "Z", "0", "9", "_", "$", "=", ".", "%", "|", "\r"}
-var hostileConstants = []string{"\\", "\\'", "'--", "*/", "/*", "'; DROP", "x' , (select 1) as y, '", "--", "\\\\", "''", "\"\"", "``", "\\\"", "a\\", "' OR '1'='1", "{p: Int32}", "\\n", "\\x41", "\\0", ")", "\";", "\\u0041", "\\u0027 OR 1=1", "http://h/p;q"}
+var hostileConstants = []string{"\\", "\\'", "'--", "*/", "/*", "'; DROP", "x' , (select 1) as y, '", "--", "\\\\", "''", "\"\"", "``", "\\\"", "a\\", "' OR '1'='1", "{p: Int32}", "\\n", "\\x41", "\\0", ")", "\";", "\\u0041", "\\u0027 OR 1=1", "http://h/p;q", "u0041", "xu0027 OR 1=1 --", "x41", "x27;", "0", "b", "r", "U0001F600", "u{41}", "N{DOLLAR SIGN}", "047", "e'"}
 var hostileNumbers = []string{"0", "7", "007", "0x1F", "0X0a", ".5", "1.", "1e3", "1.E+2", "1.50", "0.0", "1234567890123456789012345", "1e400", "0e0", "00", "0xffffffffffffffff"}
 var hostileInts = []string{"0", "7", "007", "0x1F", "0X0a", "00", "18446744073709551615", "1234567890123456789012345"}
 var plainNamePool = []string{"zz", "Col_1", "_x", "a1b2", "T9", "where_", "selectx", "x"}
@@ -465,6 +488,16 @@ func TestC04Fillings(t *testing.T) {
 				classSet[cl] = true
 			}
 			c.FillQ = append(c.FillQ, mkStrCase(v).SrcQ)
+			var spell uint64
+			if h.kind == holeStr {
+				switch rapid.IntRange(0, 3).Draw(rt, "spelling") {
+				case 0:
+					spell = rapid.Uint64().Draw(rt, "escapes")
+				case 1:
+					spell = ^uint64(0) - uint64(rapid.IntRange(0, 1).Draw(rt, "quotebit")) // a backslash wherever one may go
+				}
+			}
+			c.Spell = append(c.Spell, spell)
 		}
 		msg, herr, info := checkFill(c)
 		if herr != "" {
